@@ -31,7 +31,7 @@ ASSUMPTIONS = ["the IGNORE / annotated / untraced cell is left open by the prope
 ANN_KINDS = ["class", "generic", "optional", "string", "newtype", "rewritable"]
 ANN_SRC = {"class": "int", "generic": "List[int]", "optional": "Optional[int]", "string": "'int'", "newtype": "UserId", "rewritable": "Union[Dict[str, int], Dict[str, str]]"}
 RESULT_KINDS = ["ret", "yield", "yield+ret", "yield+none", "exc"]
-FKINDS = ["function", "method", "classmethod", "function_selfname", "static_clsname"]
+FKINDS = ["function", "method", "classmethod", "function_selfname", "static_clsname", "decorated"]
 T_PARAM, T_RET, T_YIELD = str, bytes, float
 
 
@@ -62,7 +62,8 @@ def gen_module(pl: Tuple[G.Param, ...], akind: str) -> Tuple[str, List[Dict[str,
     """All annotated subsets x function kinds (x receiver annotated?) for one parameter list and annotation kind."""
     n = len(pl)
     names = G.SHORT[:n]
-    lines = ["from typing import Dict, List, NewType, Optional, Type, Union", "", "UserId = NewType('UserId', int)", f"_AKIND = {akind!r}", ""]
+    lines = ["import functools", "from typing import Dict, List, NewType, Optional, Type, Union", "", "UserId = NewType('UserId', int)", f"_AKIND = {akind!r}", "",
+             "def _deco(f):", "    @functools.wraps(f)", "    def wrapper(*args, **kwargs):", "        return f(*args, **kwargs)", "    return wrapper", ""]
     metas: List[Dict[str, Any]] = []
     cls_lines: List[str] = ["class C1:", "    pass", ""]
     fid = 0
@@ -74,7 +75,7 @@ def gen_module(pl: Tuple[G.Param, ...], akind: str) -> Tuple[str, List[Dict[str,
             names = ["self"] + list(base_names[1:])
         elif fk == "static_clsname":
             names = ["cls"] + list(base_names[1:])
-        recvs = [("", False)] if fk in ("function", "function_selfname", "static_clsname") else [("self" if fk == "method" else "cls", False), ("self" if fk == "method" else "cls", True)]
+        recvs = [("", False)] if fk in ("function", "function_selfname", "static_clsname", "decorated") else [("self" if fk == "method" else "cls", False), ("self" if fk == "method" else "cls", True)]
         for recv, recv_ann in recvs:
             for mask in range(2 ** (n + 1)):
                 ann = {i: ANN_SRC[akind] for i in range(n) if mask & (1 << i)}
@@ -87,7 +88,10 @@ def gen_module(pl: Tuple[G.Param, ...], akind: str) -> Tuple[str, List[Dict[str,
                 fid += 1
                 head = f"def {fname}({params})" + (f" -> {ANN_SRC[akind]}" if ret_ann else "") + ":"
                 body = "    return None"
-                if fk in ("function", "function_selfname"):
+                if fk == "decorated":
+                    # functools.wraps: the stub is about the real function, not about the wrapper's (*args, **kwargs)
+                    lines += ["@_deco", head, body, ""]
+                elif fk in ("function", "function_selfname"):
                     lines += [head, body, ""]
                 else:
                     if fk == "classmethod":
@@ -101,9 +105,12 @@ def gen_module(pl: Tuple[G.Param, ...], akind: str) -> Tuple[str, List[Dict[str,
 
 
 def live(mod, m):
+    import inspect
+
+    if m["fk"] == "decorated":
+        return inspect.unwrap(getattr(mod, m["name"]))
     if m["fk"] in ("function", "function_selfname"):
         return getattr(mod, m["name"])
-    import inspect
 
     raw = inspect.getattr_static(mod.C1, m["name"])
     return raw.__func__ if isinstance(raw, (classmethod, staticmethod)) else raw
@@ -168,7 +175,7 @@ def check_stub(text: str, mod, metas, strategy: str, traced_mask: int, rk: str, 
         return [("syntax", "syntax", info.syntax_error)]
     A = ann_obj(akind, mod)
     for m in metas:
-        path = () if m["fk"] in ("function", "function_selfname") else ("C1",)
+        path = () if m["fk"] in ("function", "function_selfname", "decorated") else ("C1",)
         fis = info.funcs.get((path, m["name"]))
         if not fis:
             out.append(("missing", "function", f"{m['name']} missing"))
@@ -317,6 +324,58 @@ def all_modules(tier: str):
     return [(pl, ak) for pl in param_lists(tier) for ak in ANN_KINDS]
 
 
+def reload_stage(ctx: Ctx) -> Result:
+    """One process, one module, three stub generations with the SOURCE changed and the module reloaded in between
+    (unannotated -> annotated -> unannotated again): every generation reflects the source as it is then."""
+    import importlib as il
+
+    from monkeytype.stubs import ExistingAnnotationStrategy as EAS
+    from monkeytype.stubs import build_module_stubs_from_traces
+    from monkeytype.tracing import CallTrace
+
+    from mcheck.oracles import stubeval as SE
+
+    res = Result()
+    d = ctx.tmp / "c13_reload"
+    d.mkdir(exist_ok=True)
+    if str(d) not in sys.path:
+        sys.path.insert(0, str(d))
+    name = f"c13reload_{ctx.seed}"
+    versions = [("plain", "def f(a, b=None):\n    return a\n"), ("annotated", "def f(a: int, b: float = None) -> bytes:\n    return a\n"), ("plain-again", "def f(a, b=None):\n    return a\n")]
+    mod = None
+    for vi, (label, src) in enumerate(versions):
+        (d / f"{name}.py").write_text(src + f"# version {vi}\n" * (vi + 1))
+        il.invalidate_caches()
+        mod = il.import_module(name) if mod is None else il.reload(mod)
+        for strat in (EAS.REPLICATE, EAS.OMIT, EAS.IGNORE):
+            res.states += 1
+            res.transitions += 3
+            res.evaluations += 1
+            res.validated += 1
+            case = {"module_index": -5, "strategy": strat.name, "traced_mask": 3, "result": "ret", "tier": ctx.tier, "reload": label}
+            try:
+                text = build_module_stubs_from_traces([CallTrace(mod.f, {"a": str, "b": str}, str, None)], 0, existing_annotation_strategy=strat)[name].render()
+            except Exception as e:  # noqa: BLE001
+                res.violate(Violation(ID, "exception", "reload-stage", case, f"raised {e!r}"))
+                continue
+            info = SE.parse(text, {}, lenient_modules=[])
+            fi = (info.funcs.get(((), "f")) or [None])[0]
+            got = {k: (fi.ann_src.get(k) if fi else None) for k in ("a", "b")}
+            got["return"] = fi.returns_src if fi and fi.has_return else None
+            annotated = label == "annotated"
+            if not annotated or strat is EAS.IGNORE:
+                want = {"a": "str", "b": "Optional[str]", "return": "str"}
+            elif strat is EAS.REPLICATE:
+                want = {"a": "int", "b": "Optional[float]", "return": "bytes"}
+            else:
+                want = {"a": None, "b": None, "return": None}
+            if got != want:
+                res.violate(Violation(ID, "annotation", f"source-changed-and-reloaded:{strat.name}", case, f"source version '{label}' (generation {vi + 1} in this process), strategy {strat.name}: stub says {got}, expected {want}\n{text}"))
+    res.oblige("reload-stage", True)
+    sys.modules.pop(name, None)
+    return res
+
+
 def run(ctx: Ctx) -> Result:
     mods = all_modules(ctx.tier)
     nshards = ctx.workers * 2
@@ -331,6 +390,8 @@ def run(ctx: Ctx) -> Result:
         return res
 
     res = run_shards(ctx, shard, list(range(nshards)))
+    res.merge(reload_stage(ctx))
+    res.obligations.setdefault("reload-stage", False)
     for s in ("REPLICATE", "OMIT", "IGNORE"):
         res.obligations.setdefault(f"strategy:{s}", False)
         res.obligations.setdefault(f"cli:{s}", False)
@@ -348,6 +409,8 @@ def replay(case: Dict[str, Any], ctx: Ctx) -> List[Violation]:
     srcdir.mkdir(exist_ok=True)
     sys.path.insert(0, str(srcdir))
     ctx.tier = case["tier"]
+    if case.get("module_index") == -5:
+        return [v for v in reload_stage(ctx).violations if v.case.get("reload") == case.get("reload") and v.case.get("strategy") == case.get("strategy")] or reload_stage(ctx).violations
     pl, ak = mods[case["module_index"]]
     if case.get("cli"):
         src, metas = gen_module(pl, ak)
